@@ -45,6 +45,8 @@ INT_DTYPES = [np.int8, np.int16, np.int32, np.int64]
 # the signed / dict form of the same sample
 UINT_DTYPES = [np.uint8, np.uint16, np.uint32, np.uint64]
 ALL_INT_DTYPES = INT_DTYPES + UINT_DTYPES
+# labels no generated model uses: superfluous variables of a sample
+EXTRA_LABELS = ['__e1', 987654, ('__e', 2)]
 
 
 def value(p, x):
@@ -129,11 +131,18 @@ def gen_cqm(ctx, r):
         return ts
 
     ts = terms(r.random() < .25)
+    if labs and r.random() < .4:
+        # an expression that spans the whole model, its private order = the model's order
+        ts = [(v, r.randint(-8, 8) / 4) for v in labs] + ts
+        ctx.tick('objective spans the model in model order')
     code = f'cqm.set_objective({ts!r})'
     exec(code, dict(cqm=cqm)); src.append(code); ref.set_objective_terms(ts); lines.append('objt ' + c05.terms_arg(ts))
     for i in range(r.choice([0, 1, 2, 3, 3, 4])):
         const = r.random() < .25
         ts = terms(const)
+        if labs and not const and r.random() < .25:
+            ts = [(v, r.randint(-8, 8) / 4) for v in labs] + ts
+            ctx.tick('constraint spans the model in model order')
         sense = r.choice(c05.SENSES); rhs = r.randint(-6, 6) / 2; label = r.choice([f'c{i}', i, ('c', i)])
         weight = r.choice([.5, 2.0, 1.25]) if r.random() < .45 else None
         penalty = 'linear'
@@ -405,6 +414,13 @@ def evaluate(ctx, r, out, cqm, ref, st):
     for row in rows:
         x = {v: F(a) for v, a in zip(labs, row)}
         sample = {v: row[i] for v, i in zip(sorder, spos)}
+        if labs and r.random() < .3:
+            xs = r.sample(EXTRA_LABELS, r.choice([1, 2]))
+            if r.random() < .5:
+                sample.update({e: r.choice([0, 1]) for e in xs})
+            else:
+                sample = {**{e: r.choice([0, 1]) for e in xs}, **sample}
+            ctx.tick('single sample with superfluous variables')
         per, feas, en = definition(ref, x, atol, rtol)
         try:
             data = list(cqm.iter_constraint_data(sample))
@@ -536,28 +552,34 @@ def evaluate(ctx, r, out, cqm, ref, st):
                 if not all(np.iinfo(dt).min <= a <= np.iinfo(dt).max for a in row):
                     continue
                 srow = [row[i] for i in spos]
+                sorder_ = list(sorder)
+                if r.random() < .3:
+                    # a superfluous column before / between / after the model's variables
+                    pos_ = r.choice([0, len(srow), r.randrange(len(srow) + 1)])
+                    srow = srow[:pos_] + [r.choice([0, 1])] + srow[pos_:]; sorder_ = sorder_[:pos_] + ['__e1'] + sorder_[pos_:]
+                    ctx.tick('explicit row with a superfluous column')
                 arr1 = np.array([srow], dtype=dt)
                 ctx.tick('row dtype ' + np.dtype(dt).name)
                 try:
-                    gd = {a: F(float(b)) for a, b in cqm.violations((arr1, sorder)).items()}
-                    cfd = bool(cqm.check_feasible((arr1, sorder), **tol))
+                    gd = {a: F(float(b)) for a, b in cqm.violations((arr1, sorder_)).items()}
+                    cfd = bool(cqm.check_feasible((arr1, sorder_), **tol))
                     sc = r.choice(COMBOS[1:])
-                    gsc = {a: F(float(b)) for a, b in cqm.violations((arr1, sorder), skip_satisfied=sc[0], clip=sc[1]).items()}
+                    gsc = {a: F(float(b)) for a, b in cqm.violations((arr1, sorder_), skip_satisfied=sc[0], clip=sc[1]).items()}
                     if gsc != report(per, clabels, *sc):
-                        fail('CQM.violations', f'{np.dtype(dt).name} sample', f'violations(skip_satisfied={sc[0]}, clip={sc[1]}) of the {np.dtype(dt).name} row {srow!r} (columns {sorder!r}) = '
+                        fail('CQM.violations', f'{np.dtype(dt).name} sample', f'violations(skip_satisfied={sc[0]}, clip={sc[1]}) of the {np.dtype(dt).name} row {srow!r} (columns {sorder_!r}) = '
                              f'{ {a: float(b) for a, b in gsc.items()} !r}, definition { {a: float(b) for a, b in report(per, clabels, *sc).items()} !r}',
-                             f'assert cqm.violations((np.array([{srow!r}], dtype=np.{np.dtype(dt).name}), {sorder!r}), skip_satisfied={sc[0]}, clip={sc[1]}) == '
+                             f'assert cqm.violations((np.array([{srow!r}], dtype=np.{np.dtype(dt).name}), {sorder_!r}), skip_satisfied={sc[0]}, clip={sc[1]}) == '
                              f'{ {a: float(b) for a, b in report(per, clabels, *sc).items()} !r}\n')
                         ok = False
                         break
                 except Exception as e:  # noqa
-                    fail('CQM.violations', 'raises', f'{type(e).__name__}: {e} for a {np.dtype(dt).name} row', f'cqm.violations((np.array([{srow!r}], dtype=np.{np.dtype(dt).name}), {sorder!r}))\n')
+                    fail('CQM.violations', 'raises', f'{type(e).__name__}: {e} for a {np.dtype(dt).name} row', f'cqm.violations((np.array([{srow!r}], dtype=np.{np.dtype(dt).name}), {sorder_!r}))\n')
                     ok = False
                     break
                 if gd != want0 or cfd != feas:
-                    fail('CQM.violations', f'{np.dtype(dt).name} sample', f'violations of the {np.dtype(dt).name} row {srow!r} (columns {sorder!r}) = { {a: float(b) for a, b in gd.items()} !r} (feasible {cfd}), '
+                    fail('CQM.violations', f'{np.dtype(dt).name} sample', f'violations of the {np.dtype(dt).name} row {srow!r} (columns {sorder_!r}) = { {a: float(b) for a, b in gd.items()} !r} (feasible {cfd}), '
                          f'definition { {a: float(b) for a, b in want0.items()} !r} (feasible {feas})',
-                         f'assert cqm.violations((np.array([{srow!r}], dtype=np.{np.dtype(dt).name}), {sorder!r})) == { {a: float(b) for a, b in want0.items()} !r}\n')
+                         f'assert cqm.violations((np.array([{srow!r}], dtype=np.{np.dtype(dt).name}), {sorder_!r})) == { {a: float(b) for a, b in want0.items()} !r}\n')
                     ok = False
                     break
             if not ok:
@@ -585,8 +607,20 @@ def evaluate(ctx, r, out, cqm, ref, st):
     perm = list(spos)       # the columns in the order the per-sample path named them …
     if r.random() < .35:
         r.shuffle(perm)     # … or in another order
-    sl = (arr[:, perm], [labs[i] for i in perm])
-    slsrc = f'(np.array({arr[:, perm].tolist()!r}, dtype=np.{np.dtype(dt).name}), {[labs[i] for i in perm]!r})' if labs else f'(np.empty(({nrows}, 0)), [])'
+    mat = arr[:, perm]; cols = [labs[i] for i in perm]
+    if labs and r.random() < .45:
+        # SUPERFLUOUS sample variables (labels the model does not have: samples of a larger model) before / between / after the
+        # model's variables, with the model's variables in or out of model order, one or several rows
+        where = r.choice(['after', 'after', 'before', 'between'])
+        for e in r.sample(EXTRA_LABELS, r.choice([1, 1, 2])):
+            pos = len(cols) if where == 'after' else 0 if where == 'before' else r.randrange(len(cols) + 1)
+            col = np.array([r.choice([0, 1]) for _ in range(nrows)], dtype=mat.dtype).reshape(nrows, 1)
+            mat = np.concatenate([mat[:, :pos], col, mat[:, pos:]], axis=1); cols.insert(pos, e)
+        inorder = [c_ for c_ in cols if c_ in ref.vars] == labs
+        ctx.tick(f'superfluous sample variables {where}, model variables {"in" if inorder else "out of"} model order, {"1 row" if nrows == 1 else "several rows"}')
+    mat = np.ascontiguousarray(mat)
+    sl = (mat, cols)
+    slsrc = f'(np.array({mat.tolist()!r}, dtype=np.{np.dtype(dt).name}), {cols!r})' if labs else f'(np.empty(({nrows}, 0)), [])'
     try:
         ss = SampleSet.from_samples_cqm(sl, cqm, **tol)
         rec = ss.record
@@ -611,6 +645,19 @@ def evaluate(ctx, r, out, cqm, ref, st):
         fail('SampleSet.from_samples_cqm', 'rows/labels', 'samples or constraint labels not as given',
              f'ss = SampleSet.from_samples_cqm({slsrc}, cqm)\nassert ss.info["constraint_labels"] == {clabels!r}\n')
         return False
+    def vec_class(default):
+        """input class of a vectorised failure: is it the superfluous sample variables? (the same rows restricted to the model's
+        variables report something else)"""
+        if len(cols) == len(labs):
+            return default
+        try:
+            keep = [j for j, c_ in enumerate(cols) if c_ in ref.vars]
+            s2 = SampleSet.from_samples_cqm((np.ascontiguousarray(mat[:, keep]), [cols[j] for j in keep]), cqm, **tol)
+            same = (np.array_equal(s2.record.energy, rec.energy) and np.array_equal(s2.record.is_satisfied, rec.is_satisfied)
+                    and np.array_equal(s2.record.is_feasible, rec.is_feasible))
+        except Exception:  # noqa
+            same = True
+        return default if same else 'superfluous sample variables' + (', several rows' if nrows > 1 else '')
     nontrivial = False
     for i, row in enumerate(rows):
         x = {v: F(a) for v, a in zip(labs, row)}
@@ -619,16 +666,16 @@ def evaluate(ctx, r, out, cqm, ref, st):
         nontrivial = nontrivial or not all(wsat)
         if sat_m[i] != wsat:
             j = next(j for j in range(len(clabels)) if sat_m[i][j] != wsat[j])
-            fail('SampleSet.from_samples_cqm', cls_of(ref, clabels[j]), f'is_satisfied row {i} = {sat_m[i]}, definition {wsat}',
+            fail('SampleSet.from_samples_cqm', vec_class(cls_of(ref, clabels[j])), f'is_satisfied row {i} = {sat_m[i]}, definition {wsat}',
                  f'ss = SampleSet.from_samples_cqm({slsrc}, cqm{tolkw})\nassert list(ss.record.is_satisfied[{i}]) == {wsat!r}\n')
             return False
         if fe_v[i] != feas:
-            fail('SampleSet.from_samples_cqm', 'is_feasible', f'is_feasible row {i} = {fe_v[i]}, definition {feas}',
+            fail('SampleSet.from_samples_cqm', vec_class('is_feasible'), f'is_feasible row {i} = {fe_v[i]}, definition {feas}',
                  f'ss = SampleSet.from_samples_cqm({slsrc}, cqm{tolkw})\nassert bool(ss.record.is_feasible[{i}]) == {feas}\n')
             return False
         if en_v[i] != en:
             icls = 'constant-only objective' if (not ref.obj.order and F(float(cqm.objective.energy(dict(zip(labs, row))))) != value(ref.obj, x)) else 'energy'
-            fail('SampleSet.from_samples_cqm', icls, f'energy row {i} = {float(en_v[i])}, definition {float(en)}',
+            fail('SampleSet.from_samples_cqm', vec_class(icls), f'energy row {i} = {float(en_v[i])}, definition {float(en)}',
                  f'ss = SampleSet.from_samples_cqm({slsrc}, cqm{tolkw})\nassert ss.record.energy[{i}] == {float(en)!r}, ss.record.energy\n')
             return False
     ctx.case(key, nontrivial=nontrivial, sample=dict(build=src, rows=rows, atol=str(atol), rtol=str(rtol)))
